@@ -79,7 +79,7 @@ class Pass:
             p = s.ptr(out, pty, pval); r = s.tmp()
             out.append('  %s = call i64 @vra_load(i8* %s, i32 %d, i32 %d)' % (r, p, s.bits(ty), ORD[o]))
             s.from_i64(out, dst, ty, r); s.atomics.append((fn, 'load', o)); return
-        m = re.match(r'^  store atomic (volatile )?(\S+) (.+), (\S+\*) (.+) ' + ORDRE + r', align \d+(.*)$', ln)
+        m = re.match(r'^  store atomic (volatile )?(\S+) (.+?), (\S+\*) (.+) ' + ORDRE + r', align \d+(.*)$', ln)
         if m:
             _, ty, val, pty, pval, o, rest = m.groups()
             p = s.ptr(out, pty, pval); v = s.to_i64(out, ty, val)
@@ -153,7 +153,11 @@ class Pass:
             else:
                 out.append(ln)
             i += 1
-        return '\n'.join(out) + DECLS
+        res = '\n'.join(out)
+        for d in DECLS.strip().split('\n'):
+            nm = re.search(r'@\w+', d).group()
+            if not re.search(r'^(declare|define) [^\n]*' + re.escape(nm) + r'\(', res, re.M): res += '\n' + d
+        return res + '\n'
 
 if __name__ == '__main__':
     import json
